@@ -102,6 +102,18 @@ _fn("C20", "runtime monitor: POP3 reply reader + session model (snapshot table, 
     "content id, announced size = delivered octets after un-stuffing, termination, deletion only of the marked messages and only at QUIT are checked.",
     "POP3 sessions run in the user process (POP3ClientProxy) at the same byte boundary as IMAP sessions")
 
+_hist("C17", "runtime monitor: namespace reference model vs LIST/LSUB (plain and LIST-EXTENDED), an independent wildcard matcher, the directory tree and the observer",
+      "Exploration: histories of CREATE/DELETE/RENAME (incl. RENAME INBOX)/SUBSCRIBE/UNSUBSCRIBE, invalid namespace commands, APPENDs and orderly restarts over names with "
+      "spaces and regex/SQL metacharacters nested to depth 3; after every command LIST \"\" *, LSUB \"\" *, generated (reference, pattern) pairs, one LIST-EXTENDED form and the "
+      "directory tree are compared with the model; refused commands must change nothing; renamed subtrees keep messages, UIDs and flags (observer).  One open known finding "
+      "(a deleted subscribed leaf is kept as \\Noselect).")
+_fn("C09", "runtime monitor: audit-hook path monitor for the life of the server + file-system diff of the jail outside the mail root + leak / existence-oracle differential on responses",
+    "Exploration: every mailbox-name argument position x a name language of '..' chains (cancelling through legitimate neighbours), absolute and doubled-slash paths, '.', "
+    "wildcards x atom/quoted/literal/literal+ encodings, on a server whose mail root sits three levels deep in a jail beside a decoy user's mail and canary files; no audited "
+    "path may resolve inside the jail but outside the mail root, the outside tree (names, sizes, mtimes, SHA-256) must not change, escaping names must be refused, responses must "
+    "contain no canary token or decoy folder name, and existing vs missing outside targets must be answered identically.",
+    "os.stat raises no audit event (covered by the existence differential); every worker runs in a mount-namespace jail when unshare is permitted and under the audit guard")
+
 PENDING = "check under construction in this round; not yet validated against the unchanged tree and seeded changes"
 
 ALL = ["C%02d" % i for i in range(1, 21)]
